@@ -124,6 +124,8 @@ def _eval_patch(args):
     sys.path.insert(0, os.path.join(VERIF, "selftest"))
     import mutant as M
     name = os.path.basename(path)[:-5]
+    if kind == "seeded":
+        name = os.path.basename(os.path.dirname(path))
     res = {"name": name, "kind": kind}
     d, dst = M.scratch_copy()
     try:
@@ -163,6 +165,19 @@ def run_corpus(prop, jobs=8):
     for path in sorted(glob.glob(os.path.join(VERIF, "selftest", "benign", "*.diff")) + glob.glob(os.path.join(VERIF, "selftest", "benign_ext", "*.diff"))):
         tasks.append((path, prop, i % jobs, "benign"))
         i += 1
+    # seeded changes written by independent sub-agents: replay those this property is known to catch
+    seeded_expect = {}
+    for mp in sorted(glob.glob(os.path.join(VERIF, "seeded", "*", "meta.json"))):
+        try:
+            meta = json.load(open(mp))
+        except Exception:
+            continue
+        if prop in (meta.get("checks_that_fire") or {}):
+            path = os.path.join(os.path.dirname(mp), "patch.diff")
+            if os.path.exists(path):
+                tasks.append((path, prop, i % jobs, "seeded"))
+                seeded_expect[path] = meta.get("id")
+                i += 1
     chains = {}
     for t in tasks:
         chains.setdefault(t[2], []).append(t)
@@ -172,7 +187,16 @@ def run_corpus(prop, jobs=8):
             results.extend(f.result())
     summary = {"mutants_run": 0, "mutants_detected": 0, "mutants_stale": 0, "mutants_missed": [],
                "benign_run": 0, "benign_silent": 0, "benign_false_alarms": [], "samples": []}
+    summary.update({"seeded_run": 0, "seeded_detected": 0, "seeded_missed": []})
     for r in sorted(results, key=lambda r: r["name"]):
+        if r["kind"] == "seeded":
+            if r["status"] == "ok":
+                summary["seeded_run"] += 1
+                if r["fired"]:
+                    summary["seeded_detected"] += 1
+                else:
+                    summary["seeded_missed"].append(r["name"])
+            continue
         path = os.path.join(VERIF, "selftest", "mutants" if r["kind"] == "mutant" else "benign", r["name"] + ".diff")
         if not os.path.exists(path):
             path = os.path.join(VERIF, "selftest", "benign_ext", r["name"] + ".diff")
@@ -219,8 +243,11 @@ def run(prop, facts_by_cfg, selftest=True):
         extra["selftest"] = s
         for m in s["mutants_missed"]:
             print("SELFTEST-MISS property=%s mutant=%s (the check did not report a corpus mutant; not a verdict about /repo)" % (prop, m))
+        for m in s.get("seeded_missed", []):
+            print("SELFTEST-MISS property=%s seeded=%s (a seeded change this check used to catch is no longer reported; not a verdict about /repo)" % (prop, m))
         for fa in s["benign_false_alarms"]:
             print("SELFTEST-FALSE-ALARM property=%s edit=%s reported=%s (not a verdict about /repo)" % (prop, fa["edit"], fa["reported"]))
-        print("selftest: %d/%d corpus mutants detected, %d/%d benign edits silent, %d stale (%.0fs)"
-              % (s["mutants_detected"], s["mutants_run"], s["benign_silent"], s["benign_run"], s["mutants_stale"], s["wall_s"]))
+        print("selftest: %d/%d corpus mutants detected, %d/%d seeded changes detected, %d/%d benign edits silent, %d stale (%.0fs)"
+              % (s["mutants_detected"], s["mutants_run"], s.get("seeded_detected", 0), s.get("seeded_run", 0),
+                 s["benign_silent"], s["benign_run"], s["mutants_stale"], s["wall_s"]))
     return obs, extra
